@@ -504,3 +504,12 @@ def run(ctx, F):
     ctx.run_rule("C01-R4", "the statement given to the prover is the executed one: inputs, outputs and program info of the trace", r4_statement, F)
     ctx.run_rule("C01-R6", "stack overflow table boundary values: processor's initial table / final rows and reported outputs equal the AIR's init / final products (deep inputs and outputs)", r6_overflow_boundaries, F)
     ctx.run_rule("C01-R5", "declared transition-constraint degrees/counts equal the constraint polynomials'; assertion counts equal the declared ones for every statement shape; exemptions = random rows + 1", r5_degrees, F)
+    # completeness of the rows an honest execution produces (shared with C03 / C04 / C12, whose rule ids are kept in the keys):
+    # an honest trace that violates a transition constraint, or an auxiliary column that misses its terminal value, makes
+    # proving fail (debug) or the proof fail to verify
+    from . import rules_c03, rules_c04, rules_c12
+    M3 = rules_c03.models(F)
+    ctx.run_rule("C01-R7a", "honest stack rows satisfy the stack constraints: each handler path's next row substituted into the constraints of its operation gives zero (= C03-R3)", rules_c03.r3_substitution, F, M3)
+    ctx.run_rule("C01-R7b", "stack depth / overflow bookkeeping constraints in canonical form per shift class, control-flow operations included (= C04-R4)", rules_c04.r4_overflow, F)
+    ctx.run_rule("C01-R7c", "honest chiplet rows satisfy the bitwise, memory and hasher constraints (= C03-R8/R9/R10)", lambda c, f: (rules_c03.r8_bitwise_chiplet(c, f), rules_c03.r9_memory_chiplet(c, f), rules_c03.r10_hasher_chiplet(c, f)), F)
+    ctx.run_rule("C01-R7d", "the auxiliary-column builders agree with the operations' stack effects and documented table rows, so every running product returns to its terminal value (= C12-R4a, R4c)", lambda c, f: (rules_c12.r4a_decoder_tables(c, f), rules_c12.r4c_shift_predicates(c, f)), F)
